@@ -90,6 +90,7 @@ type vfSession struct {
 	beforeStart      func() // optional: runs in setupPair after gathering, before the agents are started
 	afterRegather    func() // optional: runs in coordinatedRestart after both sides regathered, before remote credentials are set again
 	forgeValidTCP    bool   // C02: the next forged message is a valid check from a new TCP peer address to a TCP passive candidate
+	mdnsSignalling   bool   // C06: signalled host candidates are sometimes mDNS names (already resolved, as the agent would)
 	mappedSignalling bool   // C06: signalled IPv4 candidates are sometimes spelled ::ffff:a.b.c.d
 	peerMute         bool   // C03: the scripted peer withholds every response
 	forgeUnstarted   bool   // C02: forged messages may also be injected into an agent that was not started yet
@@ -283,10 +284,15 @@ func vfCandAddr(c Candidate) string {
 		return "nil"
 	}
 
-	// transport addresses are compared canonically: a peer may spell an IPv4 address as ::ffff:a.b.c.d
+	// transport addresses are compared canonically: a peer may spell an IPv4 address as ::ffff:a.b.c.d, or name it
+	// (mDNS) and have it resolved
 	addr := c.Address()
 	if ip, err := netip.ParseAddr(addr); err == nil {
 		addr = ip.Unmap().String()
+	} else if ra := c.addr(); ra != nil {
+		if ap := netAddrToAddrPort(ra); ap.IsValid() {
+			addr = ap.Addr().Unmap().String()
+		}
 	}
 
 	return c.NetworkType().NetworkShort() + "/" + net.JoinHostPort(addr, strconv.Itoa(c.Port()))
@@ -295,6 +301,12 @@ func vfCandAddr(c Candidate) string {
 func vfCandAP(c Candidate) netip.AddrPort {
 	ip, err := netip.ParseAddr(c.Address())
 	if err != nil {
+		if ra := c.addr(); ra != nil { // a resolved mDNS name
+			if ap := netAddrToAddrPort(ra); ap.IsValid() {
+				return netip.AddrPortFrom(ap.Addr().Unmap(), ap.Port())
+			}
+		}
+
 		return netip.AddrPort{}
 	}
 
@@ -1038,6 +1050,15 @@ func (s *vfSession) signalled(c Candidate, mode string) (Candidate, error) {
 	}
 	switch mode {
 	case "host":
+		if ap := vfCandAP(c); s.mdnsSignalling && ap.IsValid() && s.rng.IntN(2) == 0 {
+			// an mDNS-named host candidate, resolved the way resolveAndAddMulticastCandidate does before adding it
+			hc, err := NewCandidateHost(&CandidateHostConfig{Network: c.NetworkType().NetworkShort(), Address: fmt.Sprintf("%016x.local", s.rng.Uint64()), Port: c.Port(), Component: 1})
+			if err != nil {
+				return nil, err
+			}
+
+			return hc, hc.setIPAddr(ap.Addr())
+		}
 		if ap := vfCandAP(c); s.mappedSignalling && ap.IsValid() && ap.Addr().Is4() {
 			return NewCandidateHost(&CandidateHostConfig{Network: c.NetworkType().NetworkShort(), Address: spell(ap.Addr()), Port: c.Port(), Component: 1, TCPType: c.TCPType()})
 		}
